@@ -308,3 +308,58 @@ def controlled(fn, prefix=(), mode="sync", horizon=20000):
     if ctl.aborted and str(ctl.aborted).startswith("watchdog"):
         raise HarnessBroken(ctl.aborted)
     return ctl, val, exc, leaked
+
+
+def run_calibrator(cfg, prefix, mode="sync", horizon=40000):
+    """Second driver: the REAL Calibrator.calibrate (real samplers, model, loss) on the calibration thread, one calibrate() call per
+    session of cfg['shape'], under the controller. Produces the same observation structure as run_protocol, so the same monitor applies."""
+    from black_it.calibrator import Calibrator
+    from black_it.samplers.halton import HaltonSampler
+    from black_it.schedulers.rl.envs.mab import MABCalibrationEnv
+    from black_it.schedulers.rl.rl_scheduler import RLScheduler
+
+    from vf import models
+    from vf.opseq import cal as C
+
+    install()
+    log = []
+    obs = {"samplers": [], "sessions": [], "error": None, "abort": None, "leaked": [], "thread_exc": None, "log": log, "losses": []}
+    with quiet():
+        samplers = make_samplers(cfg["samplers"])
+        n = len(samplers) + (0 if any(type(s) is HaltonSampler for s in samplers) else 1)
+        env = MABCalibrationEnv(n)
+        agent = make_agent(cfg["agent"], n, log)
+        sched = RLScheduler(samplers, agent=agent, env=env)
+        models.reset()
+        cal = Calibrator(loss_function=C.make_loss("minkowski"), real_data=C.real_data({}), model=models.gauss2, parameters_bounds=[[0.0, 0.0], [1.0, 1.0]],
+                         parameters_precision=[0.05, 0.05], ensemble_size=1, scheduler=sched, verbose=False, random_state=cfg.get("seed", 0), n_jobs=1)
+    rec = C.Recorder()
+
+    def go():
+        with rec:
+            for nb in cfg["shape"]:
+                with quiet():
+                    cal.calibrate(nb)
+                t = sched._agent_thread  # noqa: SLF001
+                obs["sessions"].append({"q_action": len(sched._in_queue.items), "q_outcome": len(sched._out_queue.items),  # noqa: SLF001
+                                        "thread_alive": bool(t is not None and t.is_alive())})
+
+    ctl, _, exc, leaked = controlled(go, prefix, mode=mode, horizon=horizon)
+    if exc is not None:
+        if isinstance(exc, vt.Abort):
+            obs["abort"] = str(exc)
+        else:
+            obs["error"] = f"{type(exc).__name__}: {exc}"
+    obs["leaked"] = leaked
+    for t in ctl.threads[1:]:
+        if t.exc is not None:
+            obs["thread_exc"] = f"{type(t.exc).__name__}: {t.exc}"
+    obs["samplers"] = [c["index"] for c in rec.sched_calls][:cal.current_batch_index]
+    b = np.asarray(cal.batch_num_samp)
+    obs["losses"] = [float(np.min(cal.losses_samp[b == k])) for k in range(cal.current_batch_index)]
+    obs["n_samplers"] = len(sched.samplers)
+    obs["halton_id"] = sched._halton_sampler_id  # noqa: SLF001
+    obs["final_Q"] = [float(x) for x in getattr(agent, "Q", [])]
+    if obs["abort"] == "stop":
+        obs["abort"] = None
+    return ctl, obs
